@@ -961,7 +961,7 @@ theorem rootContext_binds_excluded_classes (f : Facts) (bs : List Str) (pre post
   rootContext_binds_classes f bs pre post name bases body d s' hpost h
 
 /-- whole-module form, against Python's own rule (`Spec.ModuleBound.defNamesL`): on a module without
-`del`, starred imports and module-level `match`, EVERY `def` / `async def` / `class` statement that
+`del` and starred imports (module-level `match` included since 6e8e4cc), EVERY `def` / `async def` / `class` statement that
 executes at module level — at the top level or nested at any depth in `if` / `for` / `while` / `with`
 / `try` blocks and handlers — is visible in the compiled root context. For all facts, so for every
 exclusion pattern, decorator and follow level. -/
@@ -1050,15 +1050,37 @@ theorem C17_test_undefined_still_warned_under_exclusion :
        .funcDef (S "pub") (P1 "x") [.call (ld (S "_h")) [ld (S "nowhere")] [] []] [] false]
       = some ([S "pub"], [S "nowhere"]) := by decide +kernel
 
-/-- the hypothesis `regularL` is needed — finding "definition inside a module-level `match`": the
-builder has no `visit_Match`, so `match …: case …: def f(a): …` leaves `f` out of the root context
-(Python binds it; every use in a function is warned about). -/
-theorem rootContext_cex_def_inside_match :
-    (match compile {} [] [.compound (S "Match") [.expr .const, .compound (S "match_case")
-        [.funcDef (S "f") (P1 "a") [] [] false]]] with
-     | .ok s => (some (Context.contains s.ctx (S "f")), defNamesL [.compound (S "Match") [.expr .const,
-         .compound (S "match_case") [.funcDef (S "f") (P1 "a") [] [] false]]])
-     | _ => (none, [])) = (some false, [S "f"]) := by decide +kernel
+/-- formerly the finding "definition inside a module-level `match`" (`rootContext_cex_def_inside_match`: the
+builder had no `visit_Match`, `f` stayed out of the root context). Repaired by /repo 6e8e4cc (`visit_Match`
+registers every case body, `visit_TryStar` delegates to `visit_Try`): `match …: case …: def f(a): …` binds `f`,
+exactly the names Python binds (`defNamesL`). TEST (kernel evaluation). -/
+def modMatch : List Top :=
+  [.compound (S "Match") [.expr .const,
+     .compound (S "match_case") [.expr .const, .funcDef (S "f") (P1 "a") [] [] false],
+     .compound (S "match_case") [.expr .const, .expr .const,
+       .compound (S "If") [.expr .const, .classDef (S "InCase") [] [] []]]]]
+
+theorem rootContext_def_inside_match_bound :
+    (match compile {} [] modMatch with
+     | .ok s => (some (Context.contains s.ctx (S "f"), Context.contains s.ctx (S "InCase")), defNamesL modMatch)
+     | _ => (none, [])) = (some (true, true), [S "f", S "InCase"]) := by decide +kernel
+
+/-- … and a module-level `match` is now inside the hypotheses of `rootContext_binds_all_defs` (`regularL` no longer
+excludes it): every `def` / `class` in a case body is bound, for every `Facts` (so under every `-x` pattern). -/
+theorem rootContext_match_is_regular : plainL modMatch = true ∧ regularL modMatch = true := by decide
+
+theorem rootContext_binds_defs_inside_match (f : Facts) (bs : List Str) (r : St)
+    (h : compile f bs modMatch = .ok r) :
+    Context.contains r.ctx (S "f") = true ∧ Context.contains r.ctx (S "InCase") = true := by
+  have hb := rootContext_binds_all_defs f bs modMatch r rootContext_match_is_regular.1 rootContext_match_is_regular.2 h
+  exact ⟨hb (S "f") (by decide), hb (S "InCase") (by decide)⟩
+
+/-- the general form: a `match` statement registers the bodies of its cases in order, like any other block
+(`Match` is a block kind, `match_case` a clause kind). -/
+theorem register_match (f : Facts) (kids : List Top) (s : St) :
+    register f (.compound "Match".toList kids) s = registerL f kids s ∧
+    register f (.compound "match_case".toList kids) s = registerL f kids s := by
+  constructor <;> (rw [register.eq_def]; simp only []; rw [if_pos (by decide)])
 
 /-- finding "walrus outside an assignment statement": the expression statement `(w := 5)` is answered
 with `unexpected top-level 'ast.Expr'` and `w` is not registered. -/
